@@ -268,6 +268,70 @@ func R18() Rule {
 		if nErr < 5 {
 			c.Unknown("R18", "floor/error-sites", token.NoPos, "only %d error returns found in the filter evaluator", nErr)
 		}
+		// (b') no error of a nested evaluation is dropped: the error result of every evaluator call
+		// made by the evaluator is returned on its non-nil edge (an invalid filter nested in an
+		// interleave / chain / condition is rejected, not treated as "no match")
+		nNested := 0
+		for _, fn := range evalList {
+			k := 0
+			for _, ci := range core.AllCalls(fn) {
+				call, isCall := ci.Instr.(*ssa.Call)
+				if !isCall || ci.Static == nil || !evaluator[ci.Static] || !lastResultIsErrorType(ci.Static) {
+					continue
+				}
+				nNested++
+				k++
+				construct := fmt.Sprintf("error-propagated/%s#%d", core.FuncName(fn), k)
+				// the error value of this call
+				var errVals []ssa.Value
+				last := ci.Static.Signature.Results().Len() - 1
+				if last == 0 {
+					errVals = append(errVals, call)
+				}
+				for _, r := range core.Referrers(call) {
+					if ex, isEx := r.(*ssa.Extract); isEx && ex.Index == last {
+						errVals = append(errVals, ex)
+					}
+				}
+				propagated := false
+				for _, r := range returnsIn(fn) {
+					for _, v := range returnValues(r.Results[len(r.Results)-1]) {
+						for _, ev := range errVals {
+							if core.Resolve(v) == ev || core.SameValue(v, ev) {
+								propagated = true
+							}
+						}
+					}
+					// the whole call returned directly: `return filterRow(sub, r)`
+					if len(r.Results) == 1 {
+						if core.Resolve(r.Results[0]) == ssa.Value(call) {
+							propagated = true
+						}
+					}
+					for _, res := range r.Results {
+						if ex, isEx := core.Resolve(res).(*ssa.Extract); isEx && ex.Tuple == ssa.Value(call) && ex.Index == last {
+							propagated = true
+						}
+					}
+				}
+				// … or any error is returned on the edge where this one is known non-nil (a wrapped error)
+				for _, r := range returnsIn(fn) {
+					if ie, _ := isErrorReturn(r); ie && errNonNilEdge(call, r.Block()) {
+						propagated = true
+					}
+				}
+				// stored into an error variable that the caller consults (ReadRows keeps the scan's error in a captured variable)
+				for _, ev := range errVals {
+					for _, r := range core.Referrers(ev) {
+						if st, isSt := r.(*ssa.Store); isSt && st.Val == ev {
+							propagated = true
+						}
+					}
+				}
+				c.Check(propagated, "R18", construct, call.Pos(), "the nested evaluation's error is returned", "the error of a nested filter evaluation is dropped (it is compared with nil but never returned): an invalid filter inside an interleave / chain / condition is treated as 'no match' and the request succeeds")
+			}
+		}
+		_ = nNested
 		// (c) validation presence
 		for _, k := range validatedFilters {
 			found := false
